@@ -11,6 +11,7 @@ import TuModel.Drive.CorruptD
 import TuModel.Drive.DictD
 import TuModel.Drive.BpeTrainD
 import TuModel.Drive.GroupsD
+import TuModel.Drive.LoaderD
 open Tu.Drive
 
 def handle (line : String) : String :=
@@ -20,7 +21,7 @@ def handle (line : String) : String :=
     match rest.mapM String.toNat? with
     | none => "bad-request"
     | some args =>
-      match ((((((((((((textD op args).orElse (fun _ => editD op args)).orElse (fun _ => matchD op args)).orElse (fun _ => windowsD op args)).orElse (fun _ => tokD op args)).orElse (fun _ => batchD op args)).orElse (fun _ => multiGenD op args)).orElse (fun _ => pipeD op args)).orElse (fun _ => metricsD op args)).orElse (fun _ => corruptD op args)).orElse (fun _ => dictD op args)).orElse (fun _ => bpeTrainD op args)).orElse (fun _ => groupsD op args) with
+      match (((((((((((((textD op args).orElse (fun _ => editD op args)).orElse (fun _ => matchD op args)).orElse (fun _ => windowsD op args)).orElse (fun _ => tokD op args)).orElse (fun _ => batchD op args)).orElse (fun _ => multiGenD op args)).orElse (fun _ => pipeD op args)).orElse (fun _ => metricsD op args)).orElse (fun _ => corruptD op args)).orElse (fun _ => dictD op args)).orElse (fun _ => bpeTrainD op args)).orElse (fun _ => groupsD op args)).orElse (fun _ => loaderD op args) with
       | some r => r
       | none => "unknown-op"
 
